@@ -66,35 +66,26 @@ Proof. vm_compute. repeat split. Qed.
 
 Lemma tls11_validates :
   wf ex_heap (with_scalars ex_settings ex_scalars_tls11) = true /\
-  is_ok (snd (validate std_tables no_backends ex_heap (with_scalars ex_settings ex_scalars_tls11))) = true /\
-  clip_stable std_tables (lists ex_heap (with_scalars ex_settings ex_scalars_tls11)) ex_scalars_tls11 = true /\
-  ver_le (minVersion ex_scalars_tls11) (3, 3) = true.
+  is_ok (snd (validate std_tables no_backends ex_heap (with_scalars ex_settings ex_scalars_tls11))) = true.
 Proof. vm_compute. repeat split. Qed.
 
-(* ---- idempotence since /repo f81c02a ------------------------------------------------------------
-   validate() now clips `versions` to [minVersion, maxVersion] AFTER _sanityCheckECDHSettings has looked at
-   the unclipped list.  With minVersion = (3,4) the result has versions = [(3,4)] and still every curve of
-   the receiver; validating the result applies the TLS 1.3-only group rule and raises ValueError.
-   Witness: the default object with minVersion = (3,4) and one curve that is not an RFC 8446 group
-   (the real defaults contain brainpoolP256r1/384r1/512r1). *)
+(* ---- the f81c02a interlude -----------------------------------------------------------------------
+   Between /repo f81c02a and 0b9340a validate() clipped `versions` at minVersion itself, AFTER
+   _sanityCheckECDHSettings had looked at the unclipped list.  With minVersion = (3,4) the result had
+   versions = [(3,4)] and still every curve of the receiver; validating the result applied the TLS 1.3-only
+   group rule and raised ValueError (idempotence was refuted by the object below, and the same settings
+   could not connect to a default server).  0b9340a clips at min(minVersion, (3,3)).
+   Regression witness: the default object with minVersion = (3,4) and one curve that is not an RFC 8446
+   group (the real defaults contain brainpoolP256r1/384r1/512r1). *)
 Definition ex_heap_k1 : heap :=
   with_cell ex_heap F_eccCurves (S ["x25519"; "secp256r1"; "secp256k1"]%string).
 Definition ex_settings_13 : settings := with_scalars ex_settings ex_scalars_tls13only.
 
-Lemma idem_witness :
+Lemma idem_regression :
   wf ex_heap_k1 ex_settings_13 = true /\
   match validate std_tables no_backends ex_heap_k1 ex_settings_13 with
-  | (h1, Ok s1) => G h1 s1 F_versions = [VPair 3 4] /\ snd (validate std_tables no_backends h1 s1) = Err ValueError
+  | (h1, Ok s1) => G h1 s1 F_versions = [VPair 3 4; VPair 3 3] /\
+                   is_ok (snd (validate std_tables no_backends h1 s1)) = true
   | _ => False
   end.
 Proof. vm_compute. repeat split. Qed.
-
-Lemma idem_refuted :
-  ~ (forall T I h s h1 s1, wf h s = true -> validate T I h s = (h1, Ok s1) ->
-       exists h2 s2, validate T I h1 s1 = (h2, Ok s2) /\ view h2 s2 = view h1 s1).
-Proof.
-  intros H. destruct idem_witness as [W X].
-  destruct (validate std_tables no_backends ex_heap_k1 ex_settings_13) as [h1 [s1|e]] eqn:E; [|contradiction].
-  destruct X as [_ X]. destruct (H std_tables no_backends ex_heap_k1 ex_settings_13 h1 s1 W E) as [h2 [s2 [V _]]].
-  rewrite V in X. discriminate X.
-Qed.
